@@ -254,3 +254,48 @@ func RandValue(r *rand.Rand) (string, string) {
 	c := pick(r, valueClasses)
 	return ValueString(r, c), c
 }
+
+// SPPool hands out ONE long-lived service provider whose public configuration is
+// reset for every case (clock moved, store replaced in place, options rewritten).
+// Anything the library remembers inside the object between calls (a cached
+// verdict, context or limit) is thereby confronted with changed configuration.
+type SPPool struct {
+	sp  *saml2.SAMLServiceProvider
+	clk *SpyClock
+	st  *SpyStore
+}
+
+// Get returns the pooled SP configured exactly as NewSP(now, store...) would configure a fresh one.
+func (p *SPPool) Get(now time.Time, store ...*sim.Cert) (*saml2.SAMLServiceProvider, *SpyClock, *SpyStore) {
+	if p.sp == nil {
+		p.sp, p.clk, p.st = NewSP(now, store...)
+		return p.sp, p.clk, p.st
+	}
+	p.clk.Set(now)
+	p.clk.mu.Lock()
+	p.clk.Stacks = nil
+	p.clk.mu.Unlock()
+	p.st.Roots = nil
+	for _, c := range store {
+		p.st.Roots = append(p.st.Roots, c.X509)
+	}
+	sp := p.sp
+	sp.IdentityProviderSSOURL, sp.IdentityProviderSLOURL, sp.IdentityProviderIssuer = IdPSSO, IdPSLO, IdPIss
+	sp.AssertionConsumerServiceURL, sp.ServiceProviderSLOURL, sp.ServiceProviderIssuer = ACS, SLO, SPIss
+	sp.AudienceURI = Audience
+	sp.IDPCertificateStore = p.st
+	sp.ValidateEncryptionCert, sp.SkipSignatureValidation, sp.AllowMissingAttributes = false, false, false
+	sp.MaximumDecompressedBodySize = 0
+	sp.SPKeyStore, sp.SPSigningKeyStore = nil, nil
+	sp.SetSPKeyStore(nil)
+	sp.SetSPSigningKeyStore(nil)
+	return sp, p.clk, p.st
+}
+
+// SPSource returns a fresh SP for even case indices and the pooled one for odd ones.
+func (p *SPPool) SPSource(k int, now time.Time, store ...*sim.Cert) (*saml2.SAMLServiceProvider, *SpyClock, *SpyStore) {
+	if k%2 == 0 {
+		return NewSP(now, store...)
+	}
+	return p.Get(now, store...)
+}
